@@ -668,6 +668,34 @@ Proof.
   apply (Hincl (zero_export (Default, P 0 6 0 false))). cbn [map]. right. left. reflexivity.
 Qed.
 
+(** * Histories of one loader instance *)
+
+Definition step_ok (e : cfg_text * doc * list defbody * list wop) : Prop :=
+  match e with
+  | (c, d, B, ops) =>
+      bodies_ok B = true -> names_ok (type_from_config (parse_config c)) d = true ->
+      length B = length (defs d) ->
+      incl (map zero_export (value_exports (scan (dts_of_config c d B)))) (value_exports (scan ops))
+      /\ default_names (scan (dts_of_config c d B)) = default_names (scan ops)
+  end.
+
+Lemma history_ok h : forall cur, Forall step_ok (run_loader cur h).
+Proof.
+  induction h as [|[c|d B] r IH]; intros cur; cbn [run_loader].
+  - constructor.
+  - apply IH.
+  - constructor; [|apply IH]. cbn [step_ok]. intros HB HN HL. apply exports_loader; assumption.
+Qed.
+
+Lemma history_last_config h c r cur :
+  run_loader cur (h ++ LLoad c :: r) = run_loader cur h ++ run_loader c r.
+Proof.
+  revert cur; induction h as [|[c'|d B] h IH]; intros cur; cbn [app run_loader].
+  - reflexivity.
+  - apply IH.
+  - f_equal. apply IH.
+Qed.
+
 (** * The guard [names_ok] is needed for the op-list reading (not a defect of the code: the text
     written is [TypedDocumentNode<export { ,  as default };…], which is no export statement) *)
 
